@@ -38,14 +38,16 @@ class _GatedDb:
         self._db = db
         self.gates = []
 
-    def new_round(self):
+    def new_round(self, n_calls):
         self.gates = []
+        self.n_calls = n_calls
 
     async def _gated(self, method, sql, args, query_name):
         import asyncio
-        f = asyncio.get_event_loop().create_future()
-        self.gates.append(f)
-        await f
+        if len(self.gates) < self.n_calls:        # the demand query of each call; follow-up queries of a caller are not held back
+            f = asyncio.get_event_loop().create_future()
+            self.gates.append(f)
+            await f
         async for row in getattr(self._db, method)(sql, args, query_name):
             yield row
 
@@ -104,12 +106,14 @@ class C11(Prop):
                   'cases show; Python float `int(free / n + 0.5)` is modelled by exact integer division (agrees for free < 2^52 / n: argued, '
                   'tested at half-integer boundaries, not proved); the demand query is executed by harness/minisql (a MySQL-subset interpreter), not by MySQL; '
                   'the Lean model starts from the per-user sums.')
-    budget = {'quick': 25000, 'thorough': 400000}
+    budget = {'quick': 15000, 'thorough': 300000}
     search_budget = {'quick': 20000, 'thorough': 300000}
     rule = ('case = (free cores, [(running, ready)] for 0..12 users, the users\' counters sharded over 1..16 tokens of user_inst_coll_resources '
             'with negative shards that sum to the totals, rows of other instance collections, users whose shards cancel to zero; the free cores are held by 1..6 real Instance workers of a real Pool, some oversubscribed '
             '(negative free cores), some unhealthy (not counted); a quarter of the cases make 2-3 compute_fair_share calls on the one scheduler that overlap at the '
-            'query and are resumed in a random order, each with its own workers); values from small/tie-heavy pools, multiples of 250 mcpu and up to 2^40; '
+            'query and are resumed in a random order, each with its own workers; a third of the cases use the other callers: an explicit total '
+            '(0, negative, any) passed to _compute_fair_share, or the real autoscaler entry Pool.regions_to_ready_cores_mcpu_from_estimated_job_queue '
+            'computing its total from worker_cores / max_new_instances_per_autoscaler_loop / loop period, while the workers have room); values from small/tie-heavy pools, multiples of 250 mcpu and up to 2^40; '
             'free drawn from {<=0, 1..n, a random point of a random segment between breakpoints, half-integer rounding boundaries of the final '
             'division, total demand +-1, more than demand}; non-trivial = free > 0, >= 2 users and demand > free (the loop must stop part-way); '
             'distinct by full case')
@@ -203,10 +207,19 @@ class C11(Prop):
         """[free_cores_mcpu, cores_mcpu, state, failed_request_count]; a call without workers has one healthy worker holding `free`"""
         if call.get('workers') is not None:
             return [list(w) for w in call['workers']]
+        if call.get('kind', 'loop') != 'loop':
+            return []
         return [[call['free'], max(call['free'], 16000), 'active', 0]]
 
     def _free(self, call):
-        """the pool's free cores: sum over the healthy (active, at most one failed request) workers, negative workers included"""
+        """the free total the caller intends.  Scheduling loop / driver page: the pool's free cores = sum over the healthy (active, at
+        most one failed request) workers, negative workers included.  A caller with its own total: that total, whatever the workers
+        hold.  The autoscaler: worker_cores * int(2.5 * max_new_instances_per_autoscaler_loop * runs per minute)."""
+        kind = call.get('kind', 'loop')
+        if kind == 'explicit':
+            return call['free']
+        if kind == 'autoscaler':
+            return call['worker_cores'] * int(2.5 * call['max_new'] * (60 / call['period']))
         return sum(w[0] for w in self._workers(call) if w[2] == 'active' and w[3] <= 1)
 
     def extra_coverage(self):
@@ -247,21 +260,57 @@ class C11(Prop):
         self.mdb.execute('DELETE FROM user_inst_coll_resources')
         self.mdb.load_rows('user_inst_coll_resources', rows)
 
+        import contextvars
         calls, order = self._calls(c)
         app, pool = self._pool()
-        self.db.new_round()
+        self.db.new_round(len(calls))
+        # the autoscaler caller does not return the allocation: observe what the real _compute_fair_share hands back to it
+        which = contextvars.ContextVar('c11_call', default=None)
+        seen = {}
+        inner = pool.scheduler._compute_fair_share
+
+        async def spy(*a, **k):
+            res = await inner(*a, **k)
+            seen[which.get()] = res
+            return res
+        pool.scheduler._compute_fair_share = spy
+
+        async def run(i, make):
+            which.set(i)
+            return await make()
         tasks = []
         for i, call in enumerate(calls):
-            # the call reads the workers' free cores, then blocks in its query (gate i)
+            # the call reads the workers' free cores (or takes its caller's total), then blocks in its demand query (gate i)
             self._set_workers(app, pool, self._workers(call), i)
-            tasks.append(self.loop.create_task(pool.scheduler.compute_fair_share()))
+            kind = call.get('kind', 'loop')
+            if kind == 'loop':            # PoolScheduler.schedule_loop_body, driver/main.py: `compute_fair_share()`
+                make = pool.scheduler.compute_fair_share
+            elif kind == 'explicit':      # a caller passing its own total: `_compute_fair_share(total)`
+                make = (lambda f=call['free']: pool.scheduler._compute_fair_share(f))
+            else:                         # the autoscaler: Pool.regions_to_ready_cores_mcpu_from_estimated_job_queue computes the total
+                assert kind == 'autoscaler', kind
+                pool.worker_cores = call['worker_cores']
+                pool.max_new_instances_per_autoscaler_loop = call['max_new']
+                pool.autoscaler_loop_period_secs = call['period']
+                make = pool.regions_to_ready_cores_mcpu_from_estimated_job_queue
+            tasks.append(self.loop.create_task(run(i, make)))
             self.loop.settle()
         for i in order:
             if i < len(self.db.gates) and not self.db.gates[i].done():
                 self.db.gates[i].set_result(None)
             self.loop.settle()
         results = []
-        for t in tasks:
+        for i, t in enumerate(tasks):
+            if calls[i].get('kind') == 'autoscaler':
+                if not t.done():
+                    t.cancel()
+                    self.loop.settle()
+                if i in seen:
+                    results.append(seen[i])
+                else:
+                    exc = t.exception() if t.done() and not t.cancelled() else None
+                    results.append(exc if exc is not None else RuntimeError('the autoscaler caller did not go through _compute_fair_share'))
+                continue
             if not t.done():
                 t.cancel()
                 self.loop.settle()
@@ -309,6 +358,10 @@ class C11(Prop):
             # every call must return what it would return alone: the allocation is a function of the demands and the free cores
             m = self._oracle_one(c, self._free(call), line)
             if m:
+                kind = call.get('kind', 'loop')
+                if kind != 'loop':
+                    m = (f'caller passes its own total {self._free(call)} ({kind}), workers hold '
+                         f'{[w[0] for w in self._workers(call)]}: ') + m
                 if len(calls) > 1:
                     m = f'call {k} of {len(calls)} overlapping calls (queries answered in order {order}): ' + m
                 return m
@@ -439,6 +492,23 @@ class C11(Prop):
                 order = list(range(len(calls)))
                 rng.shuffle(order)
                 c['calls'], c['order'] = calls, order
+            if rng.random() < 0.3:
+                # the other callers: the autoscaler computes its own total (0 when it may not create instances) and passes it
+                # explicitly -- while the pool's workers have room of their own
+                calls = c.get('calls') or [{'free': free, 'workers': c.get('workers')}]
+                for call in calls:
+                    if rng.random() < (0.6 if len(calls) > 1 else 1.0):
+                        room = [[rng.choice([250, 3500, 16000, rng.randint(1, 10 ** 6)]), 16000, 'active', 0] for _ in range(rng.randint(0, 3))]
+                        if rng.random() < 0.35:
+                            call.clear()
+                            call.update({'kind': 'autoscaler', 'worker_cores': rng.choice([1, 2, 4, 8, 16, 64, 96]),
+                                         'max_new': rng.choice([0, 0, 1, 2, 5, 10]), 'period': rng.choice([15, 15, 30, 60, 7]), 'workers': room})
+                        else:
+                            f = rng.choice([0, 0, 0, -1, -rng.randint(1, 10 ** 6), call['free'], call['free'], rng.randint(1, 20000)])
+                            call.clear()
+                            call.update({'kind': 'explicit', 'free': f, 'workers': room})
+                c['calls'] = calls
+                c.setdefault('order', list(range(len(calls))))
             yield c
 
     @staticmethod
@@ -563,6 +633,12 @@ class C11(Prop):
             tags.append('rows-of-other-inst-colls')
         ws = [w for call in calls for w in self._workers(call)]
         tags.append(f'calls={len(calls)}')
+        for call in calls:
+            k = call.get('kind', 'loop')
+            tags.append('caller=' + {'loop': 'compute_fair_share()', 'explicit': '_compute_fair_share(total)',
+                                     'autoscaler': 'Pool.regions_to_ready_cores_mcpu_from_estimated_job_queue'}[k])
+            if k != 'loop' and self._free(call) <= 0 and any(w[0] > 0 for w in self._workers(call)):
+                tags.append('explicit-total<=0-while-workers-have-room')
         if len(calls) > 1:
             tags.append('overlapping:answered-in-call-order' if order == sorted(order) else 'overlapping:answered-out-of-order')
         tags.append('workers=1' if len(ws) == 1 else 'workers>1')
@@ -580,7 +656,7 @@ class C11(Prop):
 
     def shrink(self, c, fails):
         cur = {'free': self._free(self._calls(c)[0][0]), 'users': [list(u) for u in self._users(c)]}
-        if c.get('calls') and len(c['calls']) > 1 or not fails(cur):
+        if c.get('calls') or not fails(cur):
             # the failure depends on how the counters are sharded: shrink users / rows, keep the shards
             return self._shrink_sharded(c, fails)
         cur['users'] = generic_shrink_list(cur['users'], lambda us: fails({'free': cur['free'], 'users': us}))
@@ -637,7 +713,7 @@ class C11(Prop):
                 if changed:
                     continue
                 for i, call in enumerate(calls):       # one plain worker per call
-                    if call.get('workers') is not None:
+                    if call.get('workers') is not None and call.get('kind', 'loop') == 'loop':
                         d = json.loads(json.dumps(cur))
                         d['calls'][i] = {'free': self._free(call)}
                         if fails(d):
